@@ -12,6 +12,7 @@ func (s *searcher) run() bool {
 	m := newModel(s.recurse)
 	m.FindAdd = s.findAdd
 	m.ParentReported = s.parentReported
+	m.Uncertain = s.uncertain
 	return s.dfs(0, 0, 0, false, m, nil)
 }
 
@@ -255,7 +256,9 @@ func analyse(x *Exec) *RunResult {
 		}
 		// state oracle at the final quiescence
 		fm := s.atFinalWL
-		if fm != nil && !fm.Closed {
+		if fm != nil && !fm.Closed && wr.Inst != nil && len(wr.Inst.Dropped) > 0 {
+			cnt["state_checks_skipped_after_overflow"]++
+		} else if fm != nil && !fm.Closed {
 			var snap *Snapshot
 			for i := range wr.Snaps {
 				if wr.Snaps[i].Label == "final" {
